@@ -766,8 +766,8 @@ PROPS = {
         assumptions=OS_ASSUMPTIONS + ["harness built with overflow-checks and debug-assertions on"],
     ),
     "C15": dict(
-        modules=["C15", "C15Restart"],
-        theorems=['c15_restart_step', 'c15_after_restart', 'c15_accounting_exact_with_restarts', 'c15_accounting_exact_every_point'] + ["c15_accounting_exact", "c15_over_limit_only_pinned", "c15_drained"],
+        modules=["C15", "C15Restart", "C15Call"],
+        theorems=['c15_append_call_unchanged_or_only_pinned', 'c15_append_call_inserted_iff', 'c15_append_call_only_pinned', 'c15_append_call_first_accepted_only_pinned', 'c15_append_call_first_refused_unchanged', 'c15_call_boundary_unchanged', 'c15_nonappend_cache_subset', 'c15_meta_cache_unchanged', 'c15_sys_step_append_only_pinned', 'c15_sys_step_append_store', 'c15_sys_limits_configured', 'c15_sys_append_only_pinned', 'c15_sys_append_only_pinned_with_restarts'] + ['c15_restart_step', 'c15_after_restart', 'c15_accounting_exact_with_restarts', 'c15_accounting_exact_every_point'] + ["c15_accounting_exact", "c15_over_limit_only_pinned", "c15_drained"],
         gen=scripts_c15, project=proj_c15, oracle=oracle_c15,
         explanation="cache accounting invariant",
         assumptions=OS_ASSUMPTIONS,
@@ -945,6 +945,8 @@ class Trace:
         self.flush_order = []
         self.cb_seen = []
         self.faulted = False
+        self.hard_fault = False  # a fault other than a failed sync (those end the worker or drop callbacks)
+        self.sync_failed = False
         self.fails = []
         self.live = {}         # index -> (term, chunk id)
         self.purged = None
@@ -980,12 +982,14 @@ class Trace:
                 f["written"] += int(t[4])
             else:
                 self.faulted = True
+                self.hard_fault = True
         elif k == "sync":
             if t[-1] == "ok":
                 f = self.files.setdefault(int(t[3]), dict(written=0, synced=0, linked=True, base=0))
                 f["synced"] = f["written"]
             else:
                 self.faulted = True
+                self.sync_failed = True
         elif k == "trunc":
             f = self.files.setdefault(int(t[3]), dict(written=0, synced=0, linked=True, base=0))
             f["written"] = int(t[4])
@@ -997,6 +1001,7 @@ class Trace:
                     self.files[int(t[3])]["linked"] = False
             else:
                 self.faulted = True
+                self.hard_fault = True
         elif k == "cb":
             hooks.get("cb", lambda *_: None)(self, int(t[2]), t[3] == "ok")
             self.cb_seen.append((int(t[2]), t[3]))
@@ -1005,8 +1010,10 @@ class Trace:
         elif k == "cbdrop":
             self.cb_seen.append((int(t[2]), "dropped"))
             self.faulted = True
+            self.hard_fault = True
         elif k == "exit" and t[-1] == "fail":
             self.faulted = True
+            self.hard_fault = True
 
     def run(self, hooks):
         for i, g in enumerate(self.gs):
@@ -1177,7 +1184,12 @@ def oracle_c08(script, ig, mg):
     def on_group(tr, i, cmd, g):
         # liveness: after flush + worker idle without any fault, the directory holds
         # exactly the chunks the store still knows (closed + open)
-        if g.line.startswith("dir ") and not tr.faulted and i >= 2 and ig[i - 1].line.startswith("stat ") \
+        # (also after failed syncs, once a later flush has been acknowledged positively: the purge is
+        # flushed and the worker is idle)
+        quiet_ok = (not tr.faulted) or (not tr.hard_fault and i >= 3 and tr.prim[i - 3].startswith("flush ")
+                                        and tr.prim[i - 3].split()[1] != "-"
+                                        and (int(tr.prim[i - 3].split()[1]), "ok") in tr.cb_seen)
+        if g.line.startswith("dir ") and quiet_ok and i >= 2 and ig[i - 1].line.startswith("stat ") \
                 and ig[i - 2].line.startswith("wst idle") and tr.prim[i - 3].startswith("flush") \
                 if i >= 3 else False:
             st = ig[i - 1].line
@@ -1200,8 +1212,14 @@ def oracle_c08(script, ig, mg):
                                       "last_purge": tr.purges[-1][0]}))
                     return
             if sorted(on_disk) != sorted(known):
-                tr.fails.append(("obsolete-chunk-not-removed-or-needed-chunk-missing",
-                                 {"directory": on_disk, "store_chunks": known}))
+                cls = "obsolete-chunk-not-removed-or-needed-chunk-missing"
+                extra = sorted(set(on_disk) - set(known))
+                if tr.sync_failed and set(known) <= set(on_disk) and extra and extra[-1] < min(known) \
+                        and i < len(mg) and mg[i].line == g.line:
+                    # the model reproduces the directory: ids whose removal was postponed by a
+                    # failed sync are unlinked only together with the next removal request
+                    cls = "removal-postponed-by-failed-sync-waits-for-next-removal-request"
+                tr.fails.append((cls, {"directory": on_disk, "store_chunks": known}))
 
     tr = Trace(script, ig).run({"unlink": on_unlink, "group": on_group})
     if tr.fails:
@@ -1502,9 +1520,9 @@ def scripts_c02(tier, rng):
 PROPS.update({
     "C04": dict(modules=["C04", "C04Sys"], theorems=['c04_positive_callback_means_durable', 'c04_wf_invariant', 'c04_covered_step', 'c04_dying_step', 'c04_covered_rotate', 'c04_covered_flush', 'c04_ack_only_from_syncNew', 'c04_ack_means_synced', 'c04_negative_after_failed_sync', 'c04_step_cbs', 'c04_cbs_in_request_order', 'c04_cb_at_most_once', 'c04_exactly_once_no_fault_measure', 'c04_exactly_once_no_fault', 'c04_wf_reachable', 'c04_covered_sys'], gen=scripts_c04, project=proj_events, oracle=oracle_c04,
                 explanation="flush acknowledgement soundness", assumptions=OS_ASSUMPTIONS),
-    "C08": dict(theorems=['c08_unlink_only_after_good_sync', 'c08_removal_starts_only_after_good_sync', 'c08_lastSyncFailed', 'c08_unlink_in_list_order', 'c08_postponed_in_request_order', 'c08_popObsolete_prefix'], gen=scripts_c08, project=proj_c08, oracle=oracle_c08,
+    "C08": dict(modules=["C08", "C08Sys"], theorems=['c08_abut_spec', 'c08_remaining_files_gap_free_suffix', 'c08_unlinks_oldest_first', 'c08_index_entries_in_linked_chunks', 'c08_unlink_only_after_purge_durable', 'c08_no_failed_sync_clean', 'c08_flushed_idle_gone'] + ['c08_unlink_only_after_good_sync', 'c08_removal_starts_only_after_good_sync', 'c08_lastSyncFailed', 'c08_unlink_in_list_order', 'c08_postponed_in_request_order', 'c08_popObsolete_prefix'], gen=scripts_c08, project=proj_c08, oracle=oracle_c08,
                 explanation="chunk deletion", assumptions=OS_ASSUMPTIONS),
-    "C14": dict(theorems=['c14_worker_terminates_measure', 'c14_fuel_bound', 'c14_fuel_sufficient', 'c14_todoOK_reachable', 'c14_todoOK_invariant', 'c14_worker_terminates', 'c14_worker_terminates_any', 'c14_drop_state', 'c14_after_drop_nothing_moves', 'c14_drop_quiesces', 'c14_drop_none', 'c14_drop_quiesces_reachable', 'c14_drop_quiesces_system'], gen=scripts_c14, project=proj_events, oracle=oracle_c14,
+    "C14": dict(modules=["C14", "C14Busy"], theorems=['c14_busy_drop_eq_idle_drop', 'c14_busy_drop_events', 'c14_busy_senderAlive', 'c14_busy_nothing_postponed', 'c14_busy_restart_step', 'c14_busy_drop_then_open_idle', 'c14_busy_drop_then_open', 'c14_after_busy_drop_nothing_changes', 'c14_busy_refinement_continues', 'c14_busy_history_after_restart', 'c14_busy_postponed_needed'] + ['c14_worker_terminates_measure', 'c14_fuel_bound', 'c14_fuel_sufficient', 'c14_todoOK_reachable', 'c14_todoOK_invariant', 'c14_worker_terminates', 'c14_worker_terminates_any', 'c14_drop_state', 'c14_after_drop_nothing_moves', 'c14_drop_quiesces', 'c14_drop_none', 'c14_drop_quiesces_reachable', 'c14_drop_quiesces_system'], gen=scripts_c14, project=proj_events, oracle=oracle_c14,
                 explanation="drop quiesces", assumptions=OS_ASSUMPTIONS),
     "C07": dict(modules=["C07", "C07Trunc"], theorems=['c07t_appendsFresh_iff', 'c07t_readInv_spec', 'c07t_inv_fresh', 'c07t_inv_call', 'c07t_inv_truncate', 'c07t_inv_flush', 'c07t_inv_worker', 'c07t_inv_workerIdle', 'c07t_inv_drain', 'c07t_read_of_inv', 'c07t_resident_or_on_disk', 'c07t_inv_reachable', 'c07_reads_with_truncate', 'c07t_appendsFresh_of_noTruncate', 'c07_reads_partial_of_with_truncate', 'c07t_worker_steps_invisible', 'c07t_cache_limits_invisible'] + ['c07_refines_noCache', 'c07_refinesNoCache_step', 'c07_readInv_spec', 'c07_resident_or_on_disk', 'c07_boundary_written', 'c07_read_of_inv', 'c07_inv_fresh', 'c07_inv_call', 'c07_inv_flush', 'c07_inv_worker', 'c07_inv_workerIdle', 'c07_inv_drain', 'c07_inv_reachable', 'c07_reads_partial', 'c07_worker_steps_invisible', 'c07_cache_limits_invisible'], gen=scripts_c07, project=proj_c07, oracle=oracle_c07,
                 explanation="reads independent of cache/worker", assumptions=OS_ASSUMPTIONS),
